@@ -165,6 +165,9 @@ class USBControlEndpoint(Elaboratable):
             request_mux.add_interface(handler.interface)
 
 
+        handshake_is_for_us = \
+            (interface.tokenizer.endpoint == self._endpoint_number) & interface.tokenizer.is_in
+
         # ... and hook it up.
         m.d.comb += [
             setup_decoder.packet                   .connect(request_handler.setup),
@@ -174,7 +177,15 @@ class USBControlEndpoint(Elaboratable):
             interface.handshakes_out.ack           .eq(setup_decoder.ack | request_handler.handshakes_out.ack),
             interface.handshakes_out.nak           .eq(request_handler.handshakes_out.nak),
             interface.handshakes_out.stall         .eq(request_handler.handshakes_out.stall),
-            interface.handshakes_in                .connect(request_handler.handshakes_in),
+
+            # Handshake detection is shared by the whole device (and isn't filtered by address); so we'll only
+            # pass on handshakes that answer a packet we've sent -- those that follow an IN token to this endpoint.
+            # Otherwise, e.g. the host ACKing another endpoint's data would complete our pending request.
+            request_handler.handshakes_in.ack      .eq(interface.handshakes_in.ack   & handshake_is_for_us),
+            request_handler.handshakes_in.nak      .eq(interface.handshakes_in.nak   & handshake_is_for_us),
+            request_handler.handshakes_in.stall    .eq(interface.handshakes_in.stall & handshake_is_for_us),
+            request_handler.handshakes_in.nyet     .eq(interface.handshakes_in.nyet  & handshake_is_for_us),
+
 
             interface.address_changed              .eq(request_handler.address_changed),
             interface.new_address                  .eq(request_handler.new_address),
